@@ -181,7 +181,12 @@ func PreferredGoType(dt datatype.DataType) (reflect.Type, error) {
 		if err != nil {
 			return nil, err
 		}
-		return reflect.MapOf(ensureNillable(keyType), ensureNillable(valueType)), nil
+		keyType = ensureNillable(keyType)
+		if !keyType.Comparable() {
+			// slices and maps are not valid map key types: use a pointer to them
+			keyType = reflect.PtrTo(keyType)
+		}
+		return reflect.MapOf(keyType, ensureNillable(valueType)), nil
 	}
 	return nil, errCannotFindGoType(dt)
 }
